@@ -164,6 +164,8 @@ def check_C08(chk):
     c08d(chk)
     RC.record_accessors(chk, "C08.d")
     c08f(chk)
+    # shared clause: the counts of one record start from zero (`exactly its ALT alleles`): the per-record reset decided for C11
+    chk.borrow(lambda: (RC.c11a(chk), RC.c11b(chk)), "C08.g", 4)
     for r, n in (("C08.a", 3), ("C08.b", 3), ("C08.c", 2), ("C08.d", 7), ("C08.e", 1), ("C08.f", 3)):
         chk.floor(r, n)
 
@@ -457,6 +459,10 @@ def check_C09(chk):
     c09g(chk)
     c09h(chk)
     c09i(chk)
+    # shared clause: the outcome for a record does not depend on the order of the sample columns only if every selected sample is looked at
+    rs_ = RC.ReadSite(chk)
+    if rs_.ok:
+        RC.sample_loop_exits(chk, rs_, "C09.j")
     for r, n in (("C09.i", 2), ("C09.h", 4), ("C09.a", 2), ("C09.b", 7), ("C09.c", 3), ("C09.d", 10), ("C09.e", 3), ("C09.f", 2), ("C09.g", 2)):
         chk.floor(r, n)
 
@@ -1027,6 +1033,8 @@ def check_C12(chk):
     c12d(chk)
     import rules_io
     rules_io.buffered_input_capacity(chk, "C12.d")
+    # shared clause: the sniffers and readers see the same bytes whatever the block layout only if no short read is taken for a full one (C18.a)
+    chk.borrow(lambda: rules_io.c18a(chk), "C12.e", 5)
     for r, n in (("C12.a", 7), ("C12.b", 3), ("C12.c", 3), ("C12.d", 9)):
         chk.floor(r, n)
 
